@@ -36,8 +36,12 @@ func (ol OptionCodeList) sort() {
 // String returns a human-readable string for the option names.
 func (ol OptionCodeList) String() string {
 	var names []string
-	ol.sort()
-	for _, code := range ol {
+	// Sort a copy: printing must not reorder the caller's list (and with it
+	// the bytes that are later put on the wire).
+	sorted := make(OptionCodeList, len(ol))
+	copy(sorted, ol)
+	sorted.sort()
+	for _, code := range sorted {
 		names = append(names, code.String())
 	}
 	return strings.Join(names, ", ")
